@@ -331,16 +331,17 @@ def c13(run):
     mc_and_replay(run, "scripts", 6 if q else 8, ["Released"], ["direct", "core", "bridge_bin"],
                   cap=2000 if q else 20000)
     # long histories: many event/response cycles per core
-    random_round(run, "long", run.seed, 60 if q else 400, ["core", "bridge_bin", "bridge_json"], "mixed", 2,
-                 300 if q else 2000, selftest=True)
+    # (the validator's cost per call grows with the history: 1000 calls per core is what fits the time limit)
+    random_round(run, "long", run.seed, 60 if q else 240, ["core", "bridge_bin", "bridge_json"], "mixed", 2,
+                 300 if q else 1000, selftest=True)
     mc_and_replay(run, "flat1", 5 if q else 6, ["Released"], ["core"], cap=1500 if q else 20000)
     # slab occupancy after every settle, on the repository's own tests (ExecProtocol.tla)
     proto_suite(run)
     # many different programs with aborts and drops, medium length (occupancy after every call)
     random_round(run, "broad", run.seed + 9, 900 if q else 9000, ["direct", "core", "bridge_bin"], "mixed", 3, 30)
     # requests spent by an undecodable response must be forgotten as well
-    random_round(run, "longbad", run.seed + 3, 40 if q else 300, ["bridge_bin", "bridge_json"], "mixed", 2,
-                 200 if q else 1500, bad=0.15)
+    random_round(run, "longbad", run.seed + 3, 40 if q else 200, ["bridge_bin", "bridge_json"], "mixed", 2,
+                 200 if q else 800, bad=0.15)
     report_known(run)
     # repeated timer set / clear through the legacy API: the process-wide set of cleared ids
     legacy_timer(run)
@@ -647,7 +648,8 @@ def c16(run):
 
 def c11(run):
     run.assumptions = [
-        "determinism half: histories over an app that uses HTTP with 3-4 headers (both APIs), key-value and time "
+        "determinism half: histories over an app that uses HTTP with 3-4 and with 40 headers, some multi-valued "
+        "(both APIs), key-value and time "
         "operations (both APIs) and render, driven through the bincode bridge; digests of every returned batch "
         "(timer ids renamed in order of first appearance) and of the view are compared between repeated runs in "
         "one process and between separate processes -- an exploration by sampling, not an exhaustive decision",
@@ -666,7 +668,7 @@ def c11(run):
             steps = []
             for _ in range(rng.randint(3, 14)):
                 if rng.random() < 0.5:
-                    steps.append({"s": "ev", "k": rng.randrange(7)})
+                    steps.append({"s": "ev", "k": rng.randrange(9)})
                 else:
                     steps.append({"s": "resp", "i": rng.randrange(6)})
             f.write(json.dumps(steps) + "\n")
